@@ -245,9 +245,22 @@ def _receiver_shift_agreement(ctx, index):
                     return frozenset(("self", "cls"))
         return None
 
+    def extras(e, fvar):
+        """the other conjuncts of the condition: neither the receiver-name test nor the `there is a first parameter` guard"""
+        conj = e.values if isinstance(e, ast.BoolOp) and isinstance(e.op, ast.And) else [e]
+        out = set()
+        for c in conj:
+            t = _cond_norm(c, fvar)
+            if ".arg" in t and ("self" in t or "cls" in t) or "get_function_type(" in t:
+                continue
+            if " ".join(t.split()) in ("len(F.args.args) > 0", "F.args.args", "len(F.args.args)", "len(F.args.args) >= 1"):
+                continue
+            out.add(" ".join(t.split()))
+        return out
+
     ra, rb = receivers(start[0]), receivers(back[0])
     a, b = _cond_norm(start[0], start[1]), _cond_norm(back[0], back[1])
-    ok = (ra == rb) if (ra is not None and rb is not None) else a == b
+    ok = (ra == rb and extras(start[0], start[1]) == extras(back[0], back[1])) if (ra is not None and rb is not None) else a == b
     ctx.ob(
         "C13.index",
         aa,
